@@ -223,6 +223,8 @@ type bmcSys struct {
 	libExit  *term.T
 
 	verbose bool
+	objSeq  int
+	prunedHeap map[*Object]Value
 }
 
 func (b *bmcSys) logf(format string, a ...interface{}) {
@@ -389,6 +391,12 @@ func (b *bmcSys) hooks() *bmcHooks {
 					if fv, ok := fr.defers[n-1].fn.(*FuncV); ok && fv != nil && fv.Fn == nil && fv.Builtin == "cancel" {
 						return true
 					}
+					if fv, ok := fr.defers[n-1].fn.(*FuncV); ok && fv != nil && fv.Fn != nil {
+						switch originOf(fv.Fn).String() {
+						case "(*sync.WaitGroup).Done", "(*sync.WaitGroup).Wait", "(*sync.WaitGroup).Add":
+							return true
+						}
+					}
 				}
 			case *ssa.Call:
 				c := in.Common()
@@ -423,6 +431,8 @@ func (b *bmcSys) hooks() *bmcHooks {
 			o, ok := b.allocs[key]
 			if !ok {
 				o = m.newObject(et, m.zero(et), "alloc:"+key)
+				b.objSeq++
+				o.ID = 1000000 + b.objSeq // unique across the path machines
 				o.Setup = true
 				b.allocs[key] = o
 				b.symbolizeObject(m, o)
@@ -516,6 +526,14 @@ func (b *bmcSys) intrinsic(m *Machine, name string, fn *ssa.Function, args []Val
 		return &modelRes{v: b.intToBV(b.chanState(c.C).length)}
 	case "verif.local/vrt.LibExited":
 		return &modelRes{v: b.libExited()}
+	case "verif.local/vrt.AllLibExited":
+		cs := []*term.T{}
+		for _, p := range b.procs {
+			if p.p.Lib {
+				cs = append(cs, f.Eq(p.pc, f.IntC(int64(p.exit.id))))
+			}
+		}
+		return &modelRes{v: f.And(cs...)}
 	case "verif.local/vrt.Exited":
 		nm := constStr(args[0])
 		cs := []*term.T{}
@@ -1007,6 +1025,20 @@ func (b *bmcSys) classify(m *Machine, l *bloc) {
 			l.arms = []arm{{ch: fv.Data.(*ChanV).C}}
 			b.chanState(l.arms[0].ch)
 			l.desc = "deferred cancel " + pos
+			return
+		}
+		if fv, ok := d.fn.(*FuncV); ok && fv != nil && fv.Fn != nil {
+			switch originOf(fv.Fn).String() {
+			case "(*sync.WaitGroup).Done":
+				l.kind = opWgDone
+			case "(*sync.WaitGroup).Wait":
+				l.kind = opWgWait
+			default:
+				unsupported("deferred %s as a visible operation", fv.Fn)
+			}
+			l.wgKey = wgKeyOf(d.args[0])
+			b.wgVar(l.wgKey)
+			l.desc = "deferred " + originOf(fv.Fn).Name() + " " + pos
 			return
 		}
 		l.kind = opClose
